@@ -508,3 +508,14 @@ func resolveLocal(v ssa.Value) ssa.Value {
 	}
 	return v
 }
+
+// isRangeFuncGuard: the panic is one of the protocol checks go/ssa (like the compiler) inserts around a
+// range-over-func loop (iterator resumed the loop body after it ended, or did not propagate a panic): it can
+// only fire for an iterator that breaks the iteration protocol, never for the loop body's own logic.
+func isRangeFuncGuard(p *ssa.Panic) bool {
+	b := p.Block()
+	if b == nil {
+		return false
+	}
+	return strings.HasPrefix(b.Comment, "rangefunc.") || b.Comment == "yield-invalid"
+}
